@@ -17,7 +17,7 @@
    as an external sender.
    Statements only. *)
 From Coq Require Import NArith List Bool.
-From MlsV Require Import Res WindowGen Admission AdmissionProofs WindowProofs.
+From MlsV Require Import Res WindowGen Admission AdmissionProofs WindowProofs AdmissionGen AdmissionGenProofs.
 Import ListNotations.
 Local Open Scope N_scope.
 
@@ -47,3 +47,11 @@ Print Assumptions C16_current_epoch_inside_window.
 Print Assumptions C16_ciphertexts_inside_window_let_through.
 Print Assumptions C16_handshake_admission_as_members.
 Print Assumptions C16_plain_subtraction_overflows.
+
+(* the admission rule (version, group id, epoch per content type, epoch window, no unencrypted
+   application data) IS what the translator reads in MessageProcessor::check_metadata, shared by
+   members and observers (regenerated on every run) *)
+Theorem C16_translated_check_metadata_is_the_model : forall v gid epoch ct cipher,
+  gen_check_metadata v gid epoch ct cipher = check_metadata v gid epoch ct cipher.
+Proof. exact gen_check_metadata_is_model. Qed.
+Print Assumptions C16_translated_check_metadata_is_the_model.
